@@ -229,7 +229,7 @@ def run(ck):
         consts = dict(R)
         consts.update(c)
         return ck.model_check(SPEC, "TxNotifierMC", "TxNotifierMC.cfg", what, constants=consts, name=name,
-                              workers=8, timeout=2400)
+                              workers=8, timeout=3600)
 
     conf2 = dict(NOuts=1, Incl="Incl1", ConfTargets="{1, 2}", SpendTargets="{}")
     spend1 = dict(NOuts=1, Incl="Incl1", ConfTargets="{}", SpendTargets="{1}")
@@ -253,12 +253,12 @@ def run(ck):
         mc("confirmation + spend of the same outpoint, chain<=4, 2 clients, every hint", "mc_mixed4",
            MaxLen=4, MaxRegs=2, AllHints="TRUE", **mixed)
     else:
-        mc("confirmations, conflicting pair, chain<=3, 2 clients", "mc_conf3",
-           MaxLen=3, MaxRegs=2, AllHints="FALSE", **conf2)
+        mc("confirmations, conflicting pair, chain<=3, 2 clients, depths 1-2", "mc_conf3",
+           MaxLen=3, MaxRegs=2, AllHints="FALSE", MaxConfs=2, **conf2)
         mc("spends, two conflicting spenders, chain<=4, 2 clients, every hint", "mc_spend4",
            MaxLen=4, MaxRegs=2, AllHints="TRUE", **spend1)
-        mc("confirmation + spend of the same outpoint, chain<=4, 2 clients", "mc_mixed4",
-           MaxLen=4, MaxRegs=2, AllHints="FALSE", **mixed)
+        mc("confirmation + spend of the same outpoint, chain<=3, 2 clients", "mc_mixed3",
+           MaxLen=3, MaxRegs=2, AllHints="FALSE", **mixed)
     ck.cov["exhaustive"] = True
 
     # the defect at model level: as-built model + orphan rescans must violate, repaired model must not
@@ -289,6 +289,14 @@ def run(ck):
     ck.cov["samples"].append({"generated": [{k: r[k] for k in ("a", "i", "t", "n", "hint", "inc", "ev", "chint", "shint", "hd")}
                                             for r in split_traces(recs)[0][1:7]]})
 
+    # ---- (d') thorough: the same behaviours with script-only registrations (zero txid / zero outpoint)
+    if thorough:
+        trace3, recs3 = run_exec(ck, "TestVerifC14Replay",
+                                 {"VERIF_SCHED": sched, "VERIF_NOUTS": 2, "VERIF_MAXREGS": 4, "VERIF_SAFETY": 3,
+                                  "VERIF_SCRIPTONLY": 1}, "exec_gen_scriptonly")
+        account(ck, recs3)
+        validate_batches(ck, recs3, dict(R), "a TLC-generated behaviour with script-only requests", "val_gen_scriptonly")
+
     # ---- (e) free-running seeded driver: safety limit 4, 6 clients, 40 calls
     runs = 1000 if thorough else 120
     fconsts = dict(Safety=4, MaxRegs=6, **R)
@@ -315,7 +323,8 @@ def run(ck):
         "callers pass correct height hints (<= the height at which the event is on the active chain, <= tip+1)",
         "a historical rescan answers with the truth about the active chain in [start,end] at the time it is delivered and arrives "
         "before its request matures (DESIGN 10.7 O1)",
-        "Updates (numConfsLeft) channel contents are recorded but not judged; script-only (zero txid/outpoint) requests are not generated",
+        "Updates (numConfsLeft) channel contents are recorded but not judged; script-only (zero txid/outpoint) requests only in the "
+        "thorough tier (same behaviours, requests keyed by script)",
     ]
     if not repaired:
         ck.assumptions.append("generated and free-running parts: the last subscriber of a request does not cancel while its "
